@@ -20,6 +20,7 @@ class Harness:
     bound = {"quick": "", "thorough": ""}
     rule = ""
     exhaustive = True
+    cases = 0
 
     def inputs(self, tier, seed):
         raise NotImplementedError
